@@ -54,11 +54,12 @@ type SimConn struct {
 	ops           int64
 	budget        int64
 
-	Out     []byte // bytes of writes the transport reported as successful
-	Raw     []byte // everything that reached the wire, including partial failed writes
-	Quiesce []int  // len(Out) at every quiescence point (server waiting with no input pending)
-	QStep   []int  // index of the step fed after that quiescence point (len(steps) = end of input)
-	Alloc   []uint64
+	Out                 []byte // bytes of writes the transport reported as successful
+	Raw                 []byte // everything that reached the wire, including partial failed writes
+	Quiesce             []int  // len(Out) at every quiescence point (server waiting with no input pending)
+	QStep               []int  // index of the step fed after that quiescence point (len(steps) = end of input)
+	Alloc               []uint64
+	LiveStack, LiveHeap []uint64 // MeasureLive samples at quiescence points
 
 	Events       []Event
 	Closed       int
@@ -150,6 +151,19 @@ func (c *SimConn) pendingLen() int64 {
 	return n - c.poff
 }
 
+// readLive returns the bytes in use by goroutine stacks and, after a forced
+// collection, by live heap objects.
+func readLive() (stack, heap uint64) {
+	// (stacks first: a collection shrinks stacks that are no longer used)
+	s := []metrics.Sample{{Name: "/memory/classes/heap/stacks:bytes"}}
+	metrics.Read(s)
+	stack = s[0].Value.Uint64()
+	runtime.GC()
+	s = []metrics.Sample{{Name: "/memory/classes/heap/objects:bytes"}}
+	metrics.Read(s)
+	return stack, s[0].Value.Uint64()
+}
+
 func readAllocBytes() uint64 {
 	s := []metrics.Sample{{Name: "/gc/heap/allocs:bytes"}}
 	metrics.Read(s)
@@ -207,6 +221,11 @@ func (c *SimConn) Read(p []byte) (int, error) {
 			now := readAllocBytes()
 			c.Alloc = append(c.Alloc, now-c.lastAlloc)
 			c.lastAlloc = readAllocBytes()
+		}
+		if c.cc.MeasureLive {
+			st, hp := readLive()
+			c.LiveStack = append(c.LiveStack, st)
+			c.LiveHeap = append(c.LiveHeap, hp)
 		}
 		c.pending = nil
 		c.poff = 0
@@ -337,6 +356,30 @@ func (c *SimConn) Write(p []byte) (int, error) {
 		c.rt.K.Block(c.task, "write-stall", neverReady)
 		return 0, errSimBroken
 	}
+	if f := c.fault("write-slow", idx); f != nil && !c.rt.isFrozen() {
+		c.FaultFired["write-slow"]++
+		d := time.Duration(f.Ms) * time.Millisecond
+		if !c.wdl.IsZero() && time.Until(c.wdl) < d {
+			// the deadline the server armed expires while the peer is stalled:
+			// part of the data is out, the write fails with a timeout
+			if w := time.Until(c.wdl); w > 0 {
+				c.sleep(w)
+			}
+			j := f.Bytes
+			if j >= len(p) {
+				j = len(p) - 1
+			}
+			if j < 0 {
+				j = 0
+			}
+			c.Raw = append(c.Raw, p[:j]...)
+			c.Out = append(c.Out, p[:j]...)
+			c.FaultFired["deadline-exceeded"]++
+			c.rec("write", fmt.Sprintf("slow: deadline exceeded, accepted=%d of %d", j, len(p)))
+			return j, os.ErrDeadlineExceeded
+		}
+		c.sleep(d)
+	}
 	if f := c.fault("write-err-transient", idx); f != nil {
 		c.FaultFired["write-err-transient"]++
 		c.rec("write", fmt.Sprintf("transient-fault of %d", len(p)))
@@ -389,8 +432,12 @@ func (c *SimConn) idle(ms int) {
 		return
 	}
 	c.FaultFired["client-idle"]++
-	c.IdleMs += int64(ms)
-	d := time.Duration(ms) * time.Millisecond
+	c.sleep(time.Duration(ms) * time.Millisecond)
+}
+
+// sleep lets d pass on the bubble's fake clock.
+func (c *SimConn) sleep(d time.Duration) {
+	c.IdleMs += d.Milliseconds()
 	simSleepUntil.Store(time.Now().Add(d).UnixNano())
 	simSleepers.Add(1)
 	time.Sleep(d)
